@@ -418,7 +418,8 @@ impl<H: Hasher> Deserializable for BatchMerkleProof<H> {
         let depth = source.read_u8()?;
         let num_node_vectors = source.read_usize()?;
 
-        let mut nodes = Vec::with_capacity(num_node_vectors);
+        // the count is untrusted: let the vector grow as node vectors are actually read
+        let mut nodes = Vec::new();
         for _ in 0..num_node_vectors {
             // read the digests and add them to the node vector
             let digests = Vec::<_>::read_from(source)?;
